@@ -44,6 +44,7 @@ func genC16(seed uint64, tier string) *Plan {
 	p.Knobs["hb_ms"] = 1000
 	p.Knobs["scoring"] = float64(r.intn(2))
 	p.Knobs["flood_publish"] = float64(r.intn(2))
+	p.SK["sign"] = []string{"strict", "strict", "strict", "laxnosign", "laxsign", "strictnosign"}[r.intn(6)]
 	genDegrees(r, p, 4)
 	if r.chance(0.7) {
 		p.Knobs["nval_default"] = float64(r.rng(0, 1))
@@ -100,8 +101,11 @@ func genC16(seed uint64, tier string) *Plan {
 		switch {
 		case x < 20:
 			add("pub", 1, t, int64(r.rng(8, 80))) // target publishes
-		case x < 30:
+		case x < 26:
 			add("fwd", int64(r.intn(np)), t, int64(r.rng(8, 80)), 1) // third party forwards a message authored by the target
+		case x < 30:
+			// the target forwards a message authored by somebody else (forwarder and author differ)
+			add("fwd", 1, t, int64(r.rng(8, 80)), int64([]int{0, 2, 3}[r.intn(3)]%np))
 		case x < 38:
 			add("pub", i, t, int64(r.rng(8, 80)))
 		case x < 44:
@@ -113,7 +117,28 @@ func genC16(seed uint64, tier string) *Plan {
 		case x < 74:
 			add("adv", int64(r.rng(10, 1500)))
 		case x < 80 && !done:
-			add("bl", 1, int64(r.intn(2)))
+			switch y := r.intn(10); {
+			case y < 2:
+				// a backlog behind a stalled link at the moment of the call
+				add("stall", 1, 1)
+				for j := r.rng(1, 5); j > 0; j-- {
+					if r.chance(0.5) {
+						add("node-pub", t, int64(r.rng(8, 60)))
+					} else {
+						add("pub", int64([]int{0, 2, 3}[r.intn(3)]%np), t, int64(r.rng(8, 80)))
+					}
+				}
+				add("bl", 1, 1)
+				add("stall", 1, 0)
+				add("adv", int64(r.rng(1, 50)))
+			case y < 4:
+				// first through the implementation, then through the API
+				add("bl", 1, 0)
+				add("adv", int64(r.rng(1, 2000)))
+				add("bl", 1, 1)
+			default:
+				add("bl", 1, int64(r.intn(2)))
+			}
 			done = true
 		case x < 84:
 			add("disconnect", 1)
@@ -177,6 +202,7 @@ func runC16(s *sim) {
 	}
 	frameMark := map[int]int{}
 	delivMark := map[int]int{}
+	inFlightAllowance := 0
 	sopMark := 0
 	type sop struct {
 		st *simStream
@@ -195,10 +221,12 @@ func runC16(s *sim) {
 		return true
 	}
 	w.extraOps["bl"] = func(it Item) {
-		if T >= 0 {
+		if T >= 0 && (viaAPI || it.a(1) != 1 || !active()) {
 			return
 		}
+		second := T >= 0 // BlacklistPeer on a peer that the implementation already contains
 		target = w.fake(1)
+		stalledAtT := target != nil && target.stalledNow()
 		if it.a(1) == 1 {
 			viaAPI = true
 			s.do("BlacklistPeer target", func() any { w.n.ps.BlacklistPeer(tid); return nil })
@@ -207,12 +235,31 @@ func runC16(s *sim) {
 			s.logf("BLACKLIST direct add")
 		}
 		s.settle()
-		T = s.now()
-		for i, fp := range w.fakes {
-			frameMark[i] = len(fp.recv)
+		if second {
+			s.probe("bl_api_after_direct_add")
+		} else {
+			T = s.now()
+			for _, ss := range w.n.subs {
+				delivMark[ss.id] = len(ss.messages())
+			}
 		}
-		for _, ss := range w.n.subs {
-			delivMark[ss.id] = len(ss.messages())
+		if viaAPI {
+			// "nothing further is sent" counts from the API call; a write that was already blocked in
+			// the transport when the call was made (stalled link) cannot be recalled: one frame
+			for i, fp := range w.fakes {
+				if fp.id == tid || !second {
+					frameMark[i] = len(fp.recv)
+				}
+			}
+			inFlightAllowance = 0
+			if stalledAtT {
+				inFlightAllowance = 1
+				s.probe("bl_api_with_write_in_flight")
+			}
+		} else {
+			for i, fp := range w.fakes {
+				frameMark[i] = len(fp.recv)
+			}
 		}
 		sopMark = len(sops)
 		// probes: lifecycle position
@@ -241,9 +288,18 @@ func runC16(s *sim) {
 			if _, ok := w.n.ps.peers[tid]; ok {
 				s.violate("C16", "api", "C16/api/queue-not-closed", "after BlacklistPeer the target still has an outbound queue")
 			}
-			for t, m := range w.n.ps.topics {
-				if _, ok := m[tid]; ok {
-					s.violate("C16", "api", "C16/api/still-in-topic", "after BlacklistPeer the target is still listed in topic %s", t)
+			// (The statement speaks of the node's peer lists: ListPeers, below, for every topic. The
+			// internal topic map may still hold a peer that never had an outbound queue; ListPeers
+			// intersects it with the queues. Noted in DESIGN.md as an observation.)
+			for _, t := range w.topics[1:] {
+				t := t
+				c := s.do("ListPeers "+t, func() any { return w.n.ps.ListPeers(t) })
+				if l, ok := c.res.([]peer.ID); ok {
+					for _, x := range l {
+						if x == tid {
+							s.violate("C16", "api", "C16/api/still-in-listpeers", "after BlacklistPeer the target is still returned by ListPeers(%s)", t)
+						}
+					}
 				}
 			}
 			if gs := w.n.gs(); gs != nil {
@@ -303,6 +359,10 @@ func runC16(s *sim) {
 					continue
 				}
 				if fp.id == tid {
+					if viaAPI && inFlightAllowance > 0 {
+						inFlightAllowance--
+						continue
+					}
 					if viaAPI {
 						s.violate("C16", "receive", "C16/api/frame-sent-to-blacklisted", "a frame (%s) was written to the blacklisted peer at %v (BlacklistPeer at %v)", descRPC(o.rpc), o.t, T)
 					}
